@@ -12,13 +12,13 @@ import random
 
 ID = "C18"
 LEVEL = "fault_enumeration"
-TECHNIQUE = "fault enumeration on a virtual-time simulated network: shutdown() injected just before and just after every distinct event instant of seeded busy scenarios (requests awaiting ACK / separate response, block-wise transfer in flight, observations on both sides, NSTART backlog, pending empty-ACK timers, live dedup entries); oracle over client-boundary records, handler cancellation log, the wire after shutdown returned, the loop exception handler / unraisable hook, and a second context's own exchange. Second half over CoAP-over-TCP on an in-memory stream fabric (harness/simtcp.py: loop.create_connection / create_server replaced on the loop instance; link delay, handshake duration, a host that never completes the handshake, scripted RFC 8323 peers that hang up on Release at once / after 0.5 s / after 10 s / never and go on sending Pings, responses and requests meanwhile, a second aiocoap context as peer): shutdown() injected before / at / after every distinct instant of busy scenarios (requests awaiting a response, waiting for a connection being set up or for a handshake that never ends, block-wise transfer in flight, observations on both sides, handlers running, connections being accepted, frames in flight in both directions, requests born in the step of the shutdown); oracle over request outcomes, every byte written / connection opened or accepted after shutdown() returned, the close state of every stream transport 200 s later, the tasks shutdown() started and all tasks left at the end (task factory), exceptions leaving data_received, requests submitted afterwards (over a pooled connection, to a new host, to the host that does not answer, to the aiocoap peer, by the remote of an earlier response), and the second context's own TCP exchange compared with the run without shutdown"
-LEVEL_TEXT = "For each seeded busy scenario every distinct event instant is used as a shutdown point twice (t-0.1ms, t+0.1ms); each run must show: all pending requests/observations failed with a library error and handlers cancelled within SHUTDOWN_TIMEOUT, shutdown() returned, silence and no loop exception afterwards, later requests failing at once with LibraryShutdown, and the second context unaffected. Over TCP every distinct instant of each seeded scenario is used two or three times (t-0.1ms, t itself for every fourth instant in the quick tier and for all in the thorough tier, t+0.1ms); each run must show the same, plus: the tasks that shutdown() started are finished when it returns, no byte is written and no connection opened or accepted after it returned, every stream transport of the context is closed 200 s later, no library task is left, nothing raises out of data_received."
-LEVEL_NOTE = "Trusted: determinism of the replay (same seed, PYTHONHASHSEED=0, virtual clock), simnet wire log, the judge in checks/c18.py. Instants are those of wire events and handler log entries of the baseline run. TCP half: additionally trusted are harness/simtcp.py (asyncio stream transport / Server behaviour re-implemented from CPython 3.12 selector_events.py and base_events.Server: connection_made through call_soon, close() flushing, abort() resetting, writes after close dropped, exceptions out of data_received reported as 'Fatal error' and force-closing, wait_closed() waiting for the accepted connections) and harness/reftcp.py (RFC 8323 framing); instants are those of fabric events (connect, established, accepted, write, deliver, close, lost) and handler log entries of the first 9.5 s of the baseline run; attribution of connections to contexts is by listener owner and by destination address."
+TECHNIQUE = "fault enumeration on a virtual-time simulated network: shutdown() injected just before and just after every distinct event instant of seeded busy scenarios (requests awaiting ACK / separate response, block-wise transfer in flight, observations on both sides, NSTART backlog, pending empty-ACK timers, live dedup entries); oracle over client-boundary records, handler cancellation log, the wire after shutdown returned, the loop exception handler / unraisable hook, and a second context's own exchange. Second half over CoAP-over-TCP on an in-memory stream fabric (harness/simtcp.py: loop.create_connection / create_server replaced on the loop instance; link delay, handshake duration, a host that never completes the handshake, scripted RFC 8323 peers that hang up on Release at once / after 0.5 s / after 10 s / never and go on sending Pings, responses and requests meanwhile, a second aiocoap context as peer): shutdown() injected before / at / after every distinct instant, and in the k-th loop iteration (k = 0, 1, 2) after every life-cycle event of the victim's connections (connect, established, taken from the backlog, protocol created, connection_made, close, EOF, lost; a new peer connects every 0.65 s), of busy scenarios (requests awaiting a response, waiting for a connection being set up or for a handshake that never ends, block-wise transfer in flight, observations on both sides, handlers running, connections being accepted, frames in flight in both directions, requests born in the step of the shutdown, a request given up by the application in that step - in two scenarios out of three the one whose connection is being set up or has just come up, submitted through the block-wise API whose per-request task is cancelled with it); oracle over request outcomes, every byte written / connection opened or accepted after shutdown() returned, the close state of every stream transport 200 s later, the tasks shutdown() started and all tasks left at the end (task factory), exceptions leaving data_received, requests submitted afterwards (over a pooled connection, to a new host, to the host that does not answer, to the aiocoap peer, by the remote of an earlier response), and the second context's own TCP exchange compared with the run without shutdown"
+LEVEL_TEXT = "For each seeded busy scenario every distinct event instant is used as a shutdown point twice (t-0.1ms, t+0.1ms); each run must show: all pending requests/observations failed with a library error and handlers cancelled within SHUTDOWN_TIMEOUT, shutdown() returned, silence and no loop exception afterwards, later requests failing at once with LibraryShutdown, and the second context unaffected. Over TCP every distinct instant of each seeded scenario is used two or three times (t-0.1ms, t itself for every fourth instant in the quick tier and for all in the thorough tier, t+0.1ms); and every life-cycle event of the victim's connection ends is used with k = 0 (all), 1 and 2 (quick tier: only for connections being accepted) loop iterations between the event and the call; each run must show the same, plus: shutdown() does not raise, the tasks that shutdown() started are finished when it returns, no byte is written and no connection opened or accepted after it returned, every stream transport of the context is closed 200 s later, no library task is left, nothing raises out of data_received."
+LEVEL_NOTE = "Trusted: determinism of the replay (same seed, PYTHONHASHSEED=0, virtual clock), simnet wire log, the judge in checks/c18.py. Instants are those of wire events and handler log entries of the baseline run. TCP half: additionally trusted are harness/simtcp.py (asyncio stream transport / Server behaviour re-implemented from CPython 3.12 selector_events.py and base_events.Server: connection_made through call_soon one loop iteration after the protocol factory ran, which on the accepting side is itself one iteration after the connection was taken from the backlog (_accept_connection / _accept_connection2), close() flushing, abort() resetting, writes after close dropped, exceptions out of data_received reported as 'Fatal error' and force-closing, wait_closed() waiting for the accepted connections) and harness/reftcp.py (RFC 8323 framing); instants are those of fabric events (connect, established, accepted, write, deliver, close, lost) and handler log entries of the first 9.5 s of the baseline run; attribution of connections to contexts is by listener owner and by destination address."
 RULE = (
     "one case = one (scenario seed, shutdown instant, before/after) run. Non-trivial = at shutdown at least one request, observation, handler, backlog entry or timer of the context was pending; "
     "distinct = distinct (scenario variant, set of pending-work kinds at the shutdown instant, before/after) signatures. "
-    "TCP half: one case = one (scenario seed, shutdown instant, before/at/after) run; pending-work kinds there are: outgoing requests, incoming requests, connections being set up (all / those whose handshake will complete), connections being accepted, open client-side / server-side connections, frames in flight towards the context, block-wise transfers, running handlers, observers, an established client observation"
+    "TCP half: one case = one (scenario seed, shutdown instant, before/at/after) or one (scenario seed, connection life-cycle event, k loop iterations later) run; pending-work kinds there are: outgoing requests, incoming requests, connections being set up (all / those whose handshake will complete), connections being accepted, open client-side / server-side connections, frames in flight towards the context, block-wise transfers, running handlers, observers, an established client observation"
 )
 ASSUMPTIONS = [
     "SHUTDOWN_TIMEOUT is read from aiocoap.numbers.constants at run time",
@@ -29,11 +29,13 @@ ASSUMPTIONS = [
 REQUIRED_MONITORS = {
     "shutdown_returns": 200, "pending_requests_failed": 200, "handlers_cancelled": 50, "silent_after_shutdown": 200, "no_loop_exception": 200, "later_request_fails_fast": 200, "other_context_unaffected": 200, "baseline_deterministic": 1,
     # CoAP over TCP (same thresholds for both tiers; the thorough tier reaches a multiple)
-    "tcp_shutdown_returns": 600, "tcp_shutdown_tasks_finished": 600, "tcp_pending_requests_failed": 600, "tcp_handlers_cancelled": 800, "tcp_silent_after_shutdown": 600, "tcp_no_connect_after_shutdown": 600,
+    "tcp_shutdown_does_not_raise": 600, "tcp_shutdown_returns": 600, "tcp_shutdown_tasks_finished": 600, "tcp_pending_requests_failed": 600, "tcp_handlers_cancelled": 800, "tcp_silent_after_shutdown": 600, "tcp_no_connect_after_shutdown": 600,
     "tcp_connections_closed": 6000, "tcp_no_loop_exception": 600, "tcp_later_request_fails_fast": 4000, "tcp_other_context_unaffected": 600, "tcp_baseline_deterministic": 1,
     # how often the new dimensions were really there: a handshake in flight / any connection set-up pending when shutdown was called, frames under way to the
     # context at that moment, frames reaching it after shutdown returned, raw peers that did not hang up on Release at once, a peer trying to connect afterwards
     "tcp_handshake_in_flight_at_shutdown": 200, "tcp_connect_pending_at_shutdown": 600, "tcp_frames_in_flight_at_shutdown": 500, "tcp_frames_arriving_after_shutdown": 500, "tcp_peer_not_hanging_up": 4000, "tcp_connect_attempt_after_shutdown": 600,
+    # shutdown tied to a step of a connection's life cycle; thereof: the server created the protocol object of a new connection after shutdown() was called
+    "tcp_shutdown_tied_to_connection_event": 200, "tcp_accept_during_shutdown": 20, "tcp_request_cancelled_during_connection_setup": 300,
 }
 
 
@@ -478,13 +480,19 @@ def variant_tcp(vseed):
         "notify_every": r.choice([0.7, 1.5]),
         "block_len": r.choice([1500, 3000, 5000]),
         "iter_consumer": r.random() < 0.5,
-        "cancel_one": r.choice([None, "slow", "blockwise"]),
+        # the application gives up on one outstanding request in the step in which it calls shutdown: a named one, or
+        # ("setup", two scenarios out of three) the one whose connection is being set up or has come up in this very instant
+        "cancel_one": [r.choice([None, "slow", "blockwise"]), "setup", "setup"][vseed % 3],
         "cancel_obs": [None, "pending", "established", "pending"][vseed % 4],
         "backlog": r.randrange(1, 4),
         # every scenario has raw peers of all four kinds; which peer is of which kind rotates with the seed
         "mode_shift": vseed % 4,
         "twin": TCP_TWIN and vseed % 2 == 0,
     }
+
+
+class TriggerMissed(Exception):
+    """the fabric event a shutdown was to be tied to did not happen in this run (harness matter: inconclusive)"""
 
 
 def _task_label(task):
@@ -650,7 +658,7 @@ def run_tcp(v, seed, shutdown_at):
         def client_script(first):
             def script(peer):
                 def rq(k):
-                    if peer.open and k < (8 if first else 2):
+                    if peer.open and k < (8 if first else 1):
                         peer.send(rt.Frame(2, bytes([0x70 + k]), ((11, b"r"),), b"d=%s;p=x" % repr(v["slow"]).encode()))
                         loop.call_later(1.3, rq, k + 1)
 
@@ -660,15 +668,16 @@ def run_tcp(v, seed, shutdown_at):
 
             return script
 
-        async def raw_connect(ip, mode, first):
+        async def raw_connect(ip, mode, first, pings=True):
             try:
-                await fab.connect(lambda: raw("client-" + ip, "client", mode, None, client_script(first)), VICTIM, 5683, owner="raw", local=(ip, 40000))
+                await fab.connect(lambda: raw("client-" + ip, "client", mode, None, client_script(first), pings=pings), VICTIM, 5683, owner="raw", local=(ip, 40000))
             except OSError:
                 info["raw_refused"] = info.get("raw_refused", 0) + 1
 
         loop.call_later(0.05, lambda: harness_task(raw_connect("10.1.0.14", mode_of(0), True)))
-        for k in range(3):
-            loop.call_later(1.45 + 2.7 * k, lambda k=k: harness_task(raw_connect("10.1.0.%d" % (80 + k), mode_of(k + 1), False)))
+        # a new peer connects every 0.65 s (so that there are many distinct moments at which a connection is being accepted)
+        for k in range(14):
+            loop.call_later(0.45 + 0.65 * k, lambda k=k: harness_task(raw_connect("10.1.0.%d" % (80 + k), mode_of(k + 1), False, pings=k % 4 == 0)))
 
         def state_change():
             obsres.n += 1
@@ -716,9 +725,10 @@ def run_tcp(v, seed, shutdown_at):
         for k in range(2):
             at(0.2 + 4.3 * k, submit, "blockwise-%d" % k, "coap+tcp://10.1.0.12/blk", aiocoap.PUT, b"B" * v["block_len"], True)
         for k in range(7):
-            at(0.9 + 1.3 * k, submit, "fresh-%d" % k, "coap+tcp://10.1.0.%d/f" % (30 + k))
+            # (through the block-wise API, which runs a task per request that is cancelled with it, where requests get cancelled)
+            at(0.9 + 1.3 * k, submit, "fresh-%d" % k, "coap+tcp://10.1.0.%d/f" % (30 + k), blockwise=v["cancel_one"] == "setup")
         for k in range(3):
-            at(0.3 + 2.9 * k, submit, "toother-%d" % k, "coap+tcp://%s/r" % OTHER, aiocoap.POST, b"d=1.2;p=o")
+            at(0.3 + 2.9 * k, submit, "toother-%d" % k, "coap+tcp://%s/r" % OTHER, aiocoap.POST, b"d=1.2;p=o", v["cancel_one"] == "setup")
         orec = submit("observe", "coap+tcp://10.1.0.13/o", observe=0)
         orq = orec["rq"]
         obox = {}
@@ -781,7 +791,17 @@ def run_tcp(v, seed, shutdown_at):
             await asyncio.sleep(TCP_ACTIVE + 0.5)
             info["loop_exc_at_end"] = len(loop.exceptions)
         else:
-            await asyncio.sleep(shutdown_at)
+            if isinstance(shutdown_at, (list, tuple)):
+                # ["step", conn, side, kind, n, k]: in the k-th loop iteration after the one in which that fabric event happened
+                # (k = 0: the very next one, ahead of everything the event itself has scheduled)
+                try:
+                    await asyncio.wait_for(fab.arm(shutdown_at[1], shutdown_at[2], shutdown_at[3], shutdown_at[4]), TCP_ACTIVE + 2)
+                except asyncio.TimeoutError:
+                    raise TriggerMissed(repr(shutdown_at))
+                for _ in range(shutdown_at[5]):
+                    await asyncio.sleep(0)
+            else:
+                await asyncio.sleep(shutdown_at)
             tms = list(ctx.request_interfaces)
             info["pending"] = {
                 "outgoing": sum(len(getattr(tm, "outgoing_requests", None) or {}) for tm in tms),
@@ -808,11 +828,22 @@ def run_tcp(v, seed, shutdown_at):
                 submit(name, uri, blockwise=api)
                 info["down"] = True
                 info["unfinished_before"].append(name)
-            if v.get("cancel_one"):
-                victim = [r for r in recs if r["name"].startswith(v["cancel_one"]) and r["done"] is None]
+            if v.get("cancel_one") == "setup":
+                young = {}  # host -> when the youngest connection set-up towards it began
+                for c in fab.connects:
+                    if c["owner"] == "ctx" and (c["state"] == "pending" or (c["state"] == "established" and c["end"].t_made is not None and c["end"].t_made >= loop.time() - 1e-9)):
+                        young[c["dst"][0]] = c["t_start"]
+                victim = sorted((r for r in recs if r["done"] is None and r["dst"] in young and r["dst"] != "10.1.0.15" and not r["name"].startswith("justborn")), key=lambda r: -young[r["dst"]])
                 if victim:
-                    victim[0]["rq"].response.cancel()
-                    info["cancelled"] = victim[0]["name"]
+                    info["cancelled_in_setup"] = True
+            elif v.get("cancel_one"):
+                victim = [r for r in recs if r["name"].startswith(v["cancel_one"]) and r["done"] is None]
+            else:
+                victim = []
+            if victim:
+                victim[0]["rq"].response.cancel()
+                info["cancelled"] = victim[0]["name"]
+                info["cancelled_dst"] = victim[0]["dst"]
             prec = obox.get("prec")
             if v.get("cancel_obs") == "pending" and prec is not None and not prec["rq"].observation.cancelled:
                 prec["rq"].observation.cancel()
@@ -821,7 +852,10 @@ def run_tcp(v, seed, shutdown_at):
                 orq.observation.cancel()
                 info["cancelled_obs"] = "established"
             ntasks_call = len(tasks)
-            await ctx.shutdown()
+            try:
+                await ctx.shutdown()
+            except Exception as e:
+                info["shutdown_exc"] = e
             info["t_ret"] = loop.time()
             info["mark_ret"] = len(fab.log)
             info["loop_exc_at_ret"] = len(loop.exceptions)
@@ -932,8 +966,26 @@ def instants_tcp(box):
     return [ts[k] for k in sorted(ts)]
 
 
+TCP_LIFECYCLE = ("connect", "established", "accepting", "accepted", "made", "close", "abort", "eof", "reset", "force-close", "lost")
+
+
+def steps_tcp(box):
+    """the connection life-cycle events of the victim's connection ends in the baseline, as (conn, side, kind, n)"""
+    seen, out = {}, []
+    for e in box["fab"].log:
+        if e.conn is None or e.kind not in TCP_LIFECYCLE:
+            continue
+        key = (e.conn, e.side, e.kind)
+        n = seen[key] = seen.get(key, -1) + 1
+        if e.owner == "ctx" and 0 < e.t < TCP_ACTIVE:
+            out.append((e.conn, e.side, e.kind, n))
+    return out
+
+
 F1 = "tcp-connect-despite-shutdown"  # connection set-up that goes on (or begins) although the context is shut down
 F2 = "tcp-connection-survives-shutdown"  # a connection that existed when shutdown was called lives on afterwards
+F4 = "tcp-cancelled-request-leaks-connection"  # a connection that comes up just when its request is cancelled belongs to nobody
+F3 = "tcp-shutdown-raises"  # shutdown() does not complete: an exception leaves it (and what it had not yet done stays undone)
 
 
 def judge_tcp(v, res, box, when, rep, case, T, base):
@@ -942,6 +994,8 @@ def judge_tcp(v, res, box, when, rep, case, T, base):
     if not res.ok:
         if res.horizon:
             rep.inconc("horizon")
+        elif isinstance(res.error, TriggerMissed):
+            rep.inconc("tcp: the fabric event %s of the baseline did not occur in the run with the shutdown tied to it" % res.error)
         elif res.hang:
             rep.violation("tcp-shutdown-hangs", "shutdown() (or the work around it) never completed: the event loop ran dry", {"variant": repr(v), "when": when}, case)
         else:
@@ -960,6 +1014,7 @@ def judge_tcp(v, res, box, when, rep, case, T, base):
         requests=[(r["name"], None if r["done"] is None else (round(r["done"][0], 4), repr(r["done"][1])[:60])) for r in box["recs"] if r["name"] in info["unfinished_before"]], log_errors=[x["msg"][:200] for x in res.log_errors[:2]], **kw
     )
     ends = box["ends"]
+    raised = info.get("shutdown_exc")
     # shutdown() knew the connection and released it (or tried to, when something else had closed it in the same instant)
     released = lambda e: any("Release" in names for idx, t, names in e["frames"]) or "Release" in e["late_frames"]
 
@@ -968,14 +1023,21 @@ def judge_tcp(v, res, box, when, rep, case, T, base):
         they were still being set up (or were set up later); anything else would be a third mechanism"""
         if released(e):
             return F2
+        if e["side"] == "c" and e["peer"] == info.get("cancelled_dst") and e["made"] is not None and e["t_made"] >= t_call - 1e-9:
+            # its set-up was completed in the instant in which the application cancelled the request it was made for
+            return F4
         if e["side"] == "s":
-            return "tcp-accepted-connection-not-released"
+            # shutdown() raised before it got to release the server's connections / it ended without having released this one
+            return F3 + "/" + type(raised).__name__ if raised is not None else "tcp-accepted-connection-not-released"
         # a client-side connection that was there long before the call, next to another one to the same host
         if e["made"] is not None and e["made"] < mark_call and e["t_made"] < t_call - 1e-6 and any(o is not e and o["side"] == "c" and o["peer"] == e["peer"] and o["made"] is not None and o["made"] < mark_call for o in ends):
             return "tcp-duplicate-connection-orphaned"
         return F1
 
-    # ---- shutdown returns within the time-out, and what it started has come to an end ----
+    # ---- shutdown completes: it does not raise, returns within the time-out, and what it started has come to an end ----
+    rep.monitor("tcp_shutdown_does_not_raise")
+    if raised is not None:
+        rep.violation("%s/%s" % (F3, type(raised).__name__), "shutdown() raised %r instead of completing" % raised, wit(tb=rep.exception_witness(raised)), case)
     rep.monitor("tcp_shutdown_returns")
     if t_ret - t_call > T + 1e-6:
         rep.violation("tcp-shutdown-exceeds-timeout", "shutdown() took longer than SHUTDOWN_TIMEOUT", wit(took=t_ret - t_call), case)
@@ -1130,6 +1192,13 @@ def judge_tcp(v, res, box, when, rep, case, T, base):
         rep.monitor("tcp_connect_attempt_after_shutdown")
     if pend["frames_in_flight"]:
         rep.monitor("tcp_frames_in_flight_at_shutdown")
+    if any(e["side"] == "s" and e["made"] is not None and e["made"] >= mark_call for e in ends):
+        # the server took a connection from the backlog (created its protocol object) after shutdown() had been called
+        rep.monitor("tcp_accept_during_shutdown")
+    if when[1].startswith("step"):
+        rep.monitor("tcp_shutdown_tied_to_connection_event")
+    if info.get("cancelled_in_setup"):
+        rep.monitor("tcp_request_cancelled_during_connection_setup")
     kinds = tuple(sorted(k for k, n in pend.items() if n))
     rep.case(("tcp", repr(sorted(v.items())), tuple(sorted((k, min(n, 3)) for k, n in pend.items() if n)), when[1]), nontrivial=bool(kinds))
     rep.seen("tcp_pending_kinds", kinds)
@@ -1214,6 +1283,13 @@ def run_shard(shard, rep, only=None):
                 points.append((t, "at"))
             points.append((t + 1e-4, "after"))
         points = [p for p in points if p[0] > 0]
+        # ... and in the k-th loop iteration after every life-cycle event of the victim's connections (quick tier: k = 0 for
+        # all of them, k = 1, 2 only for a connection being taken from the listening socket's backlog, k = 1 for a handshake completed)
+        steps = steps_tcp(box)
+        for conn, side, kind, nth in steps:
+            for k in (0, 1, 2):
+                if k == 0 or shard["tier"] == "thorough" or kind == "accepting" or (k == 1 and kind == "established"):
+                    points.append((["step", conn, side, kind, nth, k], "step%d" % k))
         for pi, (t, ba) in enumerate(points):
             if pi % of != idx:
                 continue
@@ -1221,7 +1297,8 @@ def run_shard(shard, rep, only=None):
             if only is not None and only != case:
                 continue
             r_, b_ = run_tcp(v, vseed, t)
-            judge_tcp(v, r_, b_, (round(t, 6), ba), rep, case, T, box["other"])
+            judge_tcp(v, r_, b_, (round(t, 6) if isinstance(t, float) else "%s %s #%d of connection %d%s" % (t[0], t[3], t[4], t[1], t[2]), ba), rep, case, T, box["other"])
             if pi < 2 and s == 0 and idx == 0:
                 rep.sample({"class": "tcp-shutdown-point", "variant": v, "t": t, "side": ba, "pending": b_.get("info", {}).get("pending")})
         rep.count("tcp_instants", len(ts))
+        rep.count("tcp_connection_events", len(steps))
